@@ -122,6 +122,28 @@ fn run_kind(kind: &str, body_len: usize, chunk: usize) -> Option<String> {
     if p.body != body { return Some(format!("{desc} expected=body-intact actual=differs")); }
     None
 }
+/// every content type the library knows (and an application-supplied one): the field is there iff a type is set, once,
+/// with the type's text
+fn run_type(ct: ContentType) -> Option<String> {
+    let desc = format!("type ct={ct:?}");
+    let want: String = ct.as_str().to_string();
+    let resp = Response::new(200).with_type(ct.clone()).with_body(ResponseBody::StaticStr("x"));
+    let mut w = RecWriter::new();
+    let r = std::panic::catch_unwind(std::panic::AssertUnwindSafe(|| block_on(write_http_response(&mut w, &resp, false))));
+    let r = match r { Ok(r) => r, Err(_) => return Some(format!("{desc} expected=no-panic actual=panic")) };
+    if r.is_err() { return Some(format!("{desc} expected=Ok actual={r:?}")); }
+    let p = match parse(&w.out) { Ok(p) => p, Err(e) => return Some(format!("{desc} expected=well-formed actual=invalid({e})")) };
+    let got: Vec<&String> = p.headers.iter().filter(|(n, _)| n.eq_ignore_ascii_case("content-type")).map(|(_, v)| v).collect();
+    if ct == ContentType::None { if !got.is_empty() { return Some(format!("{desc} expected=no content-type field actual={got:?}")); } }
+    else if got.len() != 1 || *got[0] != want { return Some(format!("{desc} expected=content-type: {want} actual={got:?}")); }
+    if want.contains('\r') || want.contains('\n') { return Some(format!("{desc} expected=type text without CR / LF actual={want:?}")); }
+    None
+}
+fn type_cases() -> Vec<ContentType> {
+    vec![ContentType::Css, ContentType::Csv, ContentType::EventStream, ContentType::FormUrlEncoded, ContentType::Gif, ContentType::Html, ContentType::JavaScript, ContentType::Jpeg,
+         ContentType::Json, ContentType::Markdown, ContentType::MultipartForm, ContentType::None, ContentType::OctetStream, ContentType::Pdf, ContentType::PlainText, ContentType::Png,
+         ContentType::Svg, ContentType::Str("application/x-custom"), ContentType::String("text/x; q=1".to_string())]
+}
 fn stream_cases() -> Vec<(Vec<usize>, usize, u16)> {
     let mut v = Vec::new();
     for l in [7usize, 8, 15, 16, 17, 22, 255, 256, 257, 262, 4095, 4096, 4097, 4102, 65527, 65528] { v.push((vec![l], usize::MAX, 200)); v.push((vec![20, l, 20], 7777, 200)); }
@@ -138,6 +160,7 @@ fn replay_extra(key: &str) -> bool {
     let mut hit = false;
     for (l, ch, code) in stream_cases() { if let Some(m) = run_stream(&l, ch, code) { if m.starts_with(key) { hit = true; } } }
     for (k, bl, ch) in kind_cases() { if let Some(m) = run_kind(k, bl, ch) { if m.starts_with(key) { hit = true; } } }
+    for ct in type_cases() { if let Some(m) = run_type(ct) { if m.starts_with(key) { hit = true; } } }
     for code in 100u16..=999 { for close in [false, true] { if let Some(m) = run(code, false, close, &[], 0, usize::MAX) { if m.starts_with(key) { hit = true; } } } }
     let mut vals: Vec<String> = (0x20u8..0x7f).map(|c| format!("a{}b", c as char)).collect();
     vals.push("a\tb".to_string()); vals.push("a \t b".to_string()); vals.push("x".repeat(300));
@@ -190,6 +213,7 @@ fn main() {
     }
     for (l, ch, code) in stream_cases() { n += 1; if let Some(m) = run_stream(&l, ch, code) { if found.len() < 6 { found.push(m) } } }
     for (k, bl, ch) in kind_cases() { n += 1; if let Some(m) = run_kind(k, bl, ch) { if found.len() < 6 { found.push(m) } } }
+    for ct in type_cases() { n += 1; if let Some(m) = run_type(ct) { if found.len() < 6 { found.push(m) } } }
     println!("EVALUATED {n}");
     for f in &found { println!("WITNESS {f}"); }
     std::process::exit(if found.is_empty() { 0 } else { 1 });
